@@ -58,19 +58,16 @@ func c51Next(maxSec int64, rb time.Duration) {
 	if rb > 0 {
 		threshold = int64(rb)
 	}
-	if threshold > int64(30*24*time.Hour) {
-		threshold = int64(30 * 24 * time.Hour)
-	}
-	jmax := threshold / 10
-	if jmax > int64(time.Hour) {
-		jmax = int64(time.Hour)
-	}
+	// min/max instead of if-statements: the oracle adds no path forks of its own
+	threshold = min(threshold, int64(30*24*time.Hour))
+	jmax := min(threshold/10, int64(time.Hour))
 	if d > 0 {
 		verifrt.Reach("positive-delay")
 		at := nw + int64(d) // the instant renewal starts
 		early := na - threshold
 		verifrt.Assert(at >= early, "renewal not earlier than notAfter - threshold")
-		verifrt.Assert(at < early+jmax || at == early, "renewal within the jitter window")
+		// given at >= early: at < early+jmax, or at == early (empty jitter range)
+		verifrt.Assert(at-early < max(jmax, 1), "renewal within the jitter window")
 		verifrt.Assert(at <= na, "renewal not after expiry")
 	} else {
 		verifrt.Reach("zero-delay")
